@@ -297,6 +297,8 @@ def model_lines(case):
             sub = {"k": "tr", "t": snap, "attrs": case["attrs"]}
             out += model_lines(sub)
         return out
+    if k == "hex3":
+        return [f"pc {enc_str('#' + c)}" for c in case["cols"]]
     if k == "xterm":
         return [f"c256 {r} {g} {b}" for (r, g, b) in (xterm_rgb(i) for i in case["idx"])]
     if k == "stream":
@@ -914,6 +916,14 @@ def impl_lines(case):
             out.append(canon_trhash(h))
             out += [enc_res(r) for r in res]
         return out
+    if k == "hex3":
+        out = []
+        for c in case["cols"]:
+            try:
+                out.append(enc_str(parse_color("#" + c)))
+            except ValueError:
+                out.append("err:ValueError")
+        return out
     if k == "xterm":
         out = [str(real_c256(list(xterm_rgb(i)))) for i in case["idx"]]
         vt100._256_colors.clear()
@@ -1030,6 +1040,11 @@ def oracle_q(case):
         for part in s0.split():
             if not part.startswith("class:"):
                 v += check_noinherit(part, "inline part")
+                v += check_hex3_word(part, f"inline part of {s0!r}")
+    for sh in case["sheets"]:
+        for names, st in (sh or []):
+            for w in st.split():
+                v += check_hex3_word(w, f"rule {(names, st)!r}")
     live = [s for s in styles if s is not None]
     all_rules = [tuple(r) for s in case["sheets"] if s is not None for r in s]
     try:
@@ -1348,6 +1363,8 @@ def oracle(case):
         v = oracle_trs(case)
     elif k == "xterm":
         v = oracle_xterm(case)
+    elif k == "hex3":
+        v = oracle_hex3(case)
     elif k == "ps":
         for t in case["texts"]:
             v += check_noinherit(t, "_parse_style_str")
@@ -1631,6 +1648,60 @@ def oracle_trs(case):
                                      f"steps {case['steps'][:j]!r} have the same invalidation_hash {hi!r} but transform "
                                      f"{case['attrs'][n]!r} to {ri[n]} / {rj[n]}"})
                     return v
+    return v
+
+
+import re as _re
+
+_HEX3_WORD = _re.compile(r"^(fg:|bg:)?#([0-9a-fA-F])([0-9a-fA-F])([0-9a-fA-F])$")
+
+
+def hex3_doubled(c):
+    """the CSS rule: '#rgb' is the colour 'rrggbb'"""
+    return c[0] * 2 + c[1] * 2 + c[2] * 2
+
+
+def check_hex3_word(word, site):
+    """a colour word '#rgb' / 'fg:#rgb' / 'bg:#rgb' sets the colour with every digit doubled, and the 24-bit
+    escape code carries exactly those components"""
+    m = _HEX3_WORD.match(word)
+    if not m:
+        return []
+    want = hex3_doubled(m.group(2) + m.group(3) + m.group(4))
+    try:
+        a = _parse_style_str(word)
+    except ValueError:
+        return [{"signature": "parse_color | three-digit hex colour is not the colour with every digit doubled",
+                 "msg": f"{site}: {word!r} is rejected"}]
+    got = a.bgcolor if m.group(1) == "bg:" else a.color
+    v = []
+    if got != want:
+        v.append({"signature": "parse_color | three-digit hex colour is not the colour with every digit doubled",
+                  "msg": f"{site}: {word!r} sets the colour {got!r}, '#rgb' means {want!r}"})
+    else:
+        comps = ";".join(str(int(want[i:i + 2], 16)) for i in (0, 2, 4))
+        full = Style([]).get_attrs_for_style_str(word)
+        e = esc_cache(24)[full]
+        if f"{'48' if m.group(1) == 'bg:' else '38'};2;{comps}" not in e:
+            v.append({"signature": "_EscapeCodeCache | 24-bit escape of a three-digit hex colour has other components",
+                      "msg": f"{word!r}: escape {e!r}, expected components {comps}"})
+    return v
+
+
+def oracle_hex3(case):
+    v = []
+    for c in case["cols"]:
+        try:
+            got = parse_color("#" + c)
+        except ValueError:
+            got = "err:ValueError"
+        if got != hex3_doubled(c):
+            v.append({"signature": "parse_color | three-digit hex colour is not the colour with every digit doubled",
+                      "msg": f"parse_color('#{c}') = {got!r}, '#rgb' means {hex3_doubled(c)!r}"})
+            break
+        v += check_hex3_word("bg:#" + c, "parse_color")
+        if v:
+            break
     return v
 
 
@@ -2055,6 +2126,18 @@ def _cases(tier, rng):
         yield {"k": "q", "sheets": [[["a", "bold #123456 bg:#654321"]]], "strs": ["class:a " + st, st + " class:a", st]}
     for st in ni_styles[:: (7 if quick else 2)]:
         yield {"k": "fd", "items": [["a", st], ["b", "blink"], ["a b", "strike " + st]], "mp": True, "strs": ni_strs[:4]}
+    # --- three-digit hex colours: all 16^3 for parse_color, a sample in rules / inline / merged sheets ----
+    h3 = [a + b2 + c2 for a in "0123456789abcdef" for b2 in "0123456789abcdef" for c2 in "0123456789abcdef"]
+    for ch in chunks(h3, 512):
+        yield {"k": "hex3", "cols": ch}
+    yield {"k": "hex3", "cols": ["ABC", "aBc", "F0a", "1fE", "abC", "00F"]}
+    h3s = ["abc", "1f0", "F0a", "07c", "e2D", "123"] if quick else rng.sample(h3, 60) + ["F0a", "e2D", "aBc"]
+    for i, c in enumerate(h3s):
+        d2 = h3s[(i + 1) % len(h3s)]
+        yield {"k": "q", "sheets": [[["a", f"#{c} bold"], ["b", f"bg:#{d2}"], ["a b", f"fg:#{d2} bg:#{c}"]]],
+               "strs": ["class:a", "class:b", "class:a,b", f"class:a #{d2}", f"bg:#{c} fg:#{d2}", f"class:b bg:#{c} #{c}"]}
+        yield {"k": "q", "sheets": [[["a", f"#{c}"]], None, [["a", f"bg:#{d2}"], ["", f"fg:#{d2}"]]],
+               "strs": ["class:a", "", f"class:a fg:#{c}"]}
     # --- Style.from_dict / Priority -----------------------------------------------------
     fd_names = ["a", "b", "a.x", "a b", "b a.x", "a.x.y", "", "b.y  a", "c"]
     fd_strs = ["class:a", "class:a.x class:b", "class:b class:a.x.y", "class:a,b nobold", ""]
@@ -2302,7 +2385,7 @@ def _cases(tier, rng):
 
 def sample_view(case):
     c = dict(case)
-    for key in ("strs", "texts", "rgbs", "items", "attrs", "gs", "ops", "objs", "steps", "idx"):
+    for key in ("strs", "texts", "rgbs", "items", "attrs", "gs", "ops", "objs", "steps", "idx", "cols"):
         if key in c and len(c[key]) > 4:
             c[key] = list(c[key][:4]) + [f"... {len(case[key])} in total"]
     return c
